@@ -13,6 +13,7 @@ import (
 	"sort"
 	"strings"
 	"sync"
+	"sync/atomic"
 	"testing"
 	"time"
 
@@ -177,6 +178,9 @@ func verifRunCase(dir string, c *verifCase) {
 		if c.Id%3 == 0 {
 			c.Probe["emissionsFedBackOnce"] = verifFanout(ctx, s, specDir)
 		}
+		if c.Id%3 == 1 {
+			c.Probe["emissionsReportedUnderStoreFault"] = verifFanoutStoreDown(ctx, s, specDir)
+		}
 	}
 	if !down {
 		s.store.Close(ctx)
@@ -186,6 +190,25 @@ func verifRunCase(dir string, c *verifCase) {
 // verifConcurrent: concurrent clients (process, add, remove, read-crew); every counting machine
 // must end with exactly the number of messages addressed to it (no update lost) and memory must
 // equal the store.
+// verifWait waits for the group, but not for ever: a client that never comes back (a lock that is
+// never released) is a failure of the probe, not of the run.
+var verifStuck bool // a client got stuck in an earlier case: later cases do not wait again
+
+func verifWait(wg *sync.WaitGroup, d time.Duration) bool {
+	if verifStuck {
+		d = 200 * time.Millisecond
+	}
+	done := make(chan bool)
+	go func() { wg.Wait(); close(done) }()
+	select {
+	case <-done:
+		return true
+	case <-time.After(d):
+		verifStuck = true
+		return false
+	}
+}
+
 func verifConcurrent(ctx context.Context, s *Service) bool {
 	mids := []string{}
 	before := map[string]float64{}
@@ -223,8 +246,31 @@ func verifConcurrent(ctx context.Context, s *Service) bool {
 			}
 		}(k)
 	}
-	wg.Wait()
+	if !verifWait(&wg, 20*time.Second) {
+		return false
+	}
 	ok := true
+	// several clients add the same new id at once: one is told it succeeded, the others that it exists
+	var won, lost int32
+	for k := 0; k < 8; k++ {
+		wg.Add(1)
+		go func() {
+			defer wg.Done()
+			switch err := s.AddMachine(ctx, "nospec", "contested", "idle", nil); err {
+			case nil:
+				atomic.AddInt32(&won, 1)
+			case Exists:
+				atomic.AddInt32(&lost, 1)
+			}
+		}()
+	}
+	if !verifWait(&wg, 20*time.Second) {
+		return false
+	}
+	if won != 1 || lost != 7 {
+		ok = false
+	}
+	s.RemMachine(ctx, "contested")
 	s.crew.RLock()
 	for _, mid := range mids {
 		m := s.crew.Machines[mid]
@@ -299,6 +345,61 @@ func verifFanout(ctx context.Context, s *Service, specDir string) bool {
 	s.RemMachine(ctx, "vfan")
 	s.RemMachine(ctx, "vrec")
 	return each
+}
+
+// verifFanoutStoreDown: the store fails while a machine that emits k messages is processed.  The
+// machine's state does not advance (C16), yet what its action emitted is still handed to the host
+// (Service.Emitted) once each and fed back — emission is not a part of the write.
+func verifFanoutStoreDown(ctx context.Context, s *Service, specDir string) bool {
+	const k = 4
+	fan := map[string]interface{}{"name": "vfan2", "nodes": map[string]interface{}{
+		"start":  map[string]interface{}{"branching": map[string]interface{}{"branches": []interface{}{map[string]interface{}{"target": "listen"}}}},
+		"listen": map[string]interface{}{"branching": map[string]interface{}{"type": "message", "branches": []interface{}{map[string]interface{}{"pattern": map[string]interface{}{"fan": "?n"}, "target": "emit"}}}},
+		"emit": map[string]interface{}{"action": map[string]interface{}{"interpreter": "ecmascript",
+			"source": fmt.Sprintf("for (var i = 0; i < %d; i++) { _.out({\"to\": \"nobody-there\", \"j\": i}); } return {};", k)},
+			"branching": map[string]interface{}{"branches": []interface{}{map[string]interface{}{"target": "listen"}}}}}}
+	js, _ := json.Marshal(fan)
+	os.WriteFile(filepath.Join(specDir, "vfan2.yaml"), js, 0o644)
+	if err := s.AddMachine(ctx, "vfan2", "vfan2", "start", nil); err != nil {
+		return true
+	}
+	reported := make(chan interface{}, 64)
+	old := s.Emitted
+	s.Emitted = reported
+	s.store.Close(ctx)
+	_, err := s.Process(ctx, map[string]interface{}{"to": "vfan2", "fan": 1.0}, nil)
+	time.Sleep(60 * time.Millisecond) // the re-injected messages (addressed to nobody) settle
+	s.store.Open(ctx)
+	s.Emitted = old
+	seen := map[float64]int{}
+	n := 0
+drain:
+	for {
+		select {
+		case m := <-reported:
+			n++
+			if mm, is := m.(map[string]interface{}); is {
+				if j, is := mm["j"].(float64); is {
+					seen[j]++
+				}
+			}
+		default:
+			break drain
+		}
+	}
+	s.RemMachine(ctx, "vfan2")
+	if err == nil {
+		return true // the store did not fail: nothing to judge
+	}
+	if n != k {
+		return false
+	}
+	for j := 0; j < k; j++ {
+		if seen[float64(j)] != 1 {
+			return false
+		}
+	}
+	return true
 }
 
 func TestVerifMCrewDriver(t *testing.T) {
